@@ -424,6 +424,8 @@ def gen_e2e_case(r, n):
         files = [(r.choice(NAMES), 0 if r.random() < 0.08 else around(r, p, kmax + 1), r.getrandbits(32))]
     case = {"kind": "e2e", "id": n, "shape": shape, "p": p, "md5": md5, "files": files,
             "out": r.choice(["-", "-", "out.torrent"]),
+            # platform and leftovers: one CPU only (C01-15); with --force something longer already lies at the output path (C01-13)
+            "one_cpu": r.random() < 0.2, "force_over": r.random() < 0.5,
             "globals": r.choice([[], [], [], ["--terminal"], ["-t"], ["--terminal", "--color", "always"], ["--quiet"]])}
     if shape == "stdin":
         size = files[0][1]
@@ -451,16 +453,22 @@ def create_args(case, inp, name=None):
         a.append("--md5")
     if name is not None:
         a += ["--name", name]
+    if case.get("force_over") and case["out"] != "-":
+        a.append("--force")
     return a
 
 
 def run_create(ctx, case, cwd, inp, name=None, bursts=None, data=None):
     """-> (rc, torrent bytes or None, stderr)"""
     args = create_args(case, inp, name)
+    if case.get("force_over") and case["out"] != "-":
+        # an earlier, longer torrent of other content is in the way: --force replaces it completely
+        with open(os.path.join(cwd, case["out"]), "wb") as f:
+            f.write(b"d4:infod6:lengthi1e4:name3:old12:piece lengthi16384e6:pieces20:" + b"o" * 20 + b"ee" + b"#" * 150000)
     if bursts is None:
-        rc, out, err = ctx.imdl(args, cwd=cwd, timeout=120)
+        rc, out, err = ctx.imdl(args, cwd=cwd, timeout=120, one_cpu=bool(case.get("one_cpu")))
     else:
-        p = subprocess.Popen([ctx.bins["imdl"]] + args, cwd=cwd, stdin=subprocess.PIPE, stdout=subprocess.PIPE,
+        p = subprocess.Popen(lib.limited([ctx.bins["imdl"]] + args, one_cpu=bool(case.get("one_cpu"))), cwd=cwd, stdin=subprocess.PIPE, stdout=subprocess.PIPE,
                              stderr=subprocess.PIPE, env=imdl_env())
         import threading
         res = {}
